@@ -199,6 +199,18 @@ def run_property(pid, tier="quick", seed=0, only=None, verbose=False, do_bounded
             if not ok:
                 undecided.append("engine lemma not proved: %s" % name)
         cov["engine_lemmas"] = [{"lemma": n, "proved": ok} for n, ok in lem]
+        # differential self-check of the engine's Python/NumPy/npstructures semantics against the real interpreter (bounded
+        # validation of the ASSUMED primitive contracts; a mismatch is a checker defect, never a verdict about the code)
+        from . import selfcheck
+        tsc = time.time()
+        nsc, badsc = selfcheck.run_all(None if tier == "thorough" else 4)
+        cov["engine_selfcheck"] = {"cases": nsc, "mismatches": badsc, "time_s": round(time.time() - tsc, 2),
+                                   "what": "snippets of the verified subset run by CPython and by the engine on the same concrete inputs; "
+                                           "the engine's result must be entailed equal (exact primitives) or consistent (Skolem-axiomatised ones)"}
+        if badsc:
+            crashed.append("engine self-check: %d mismatches with CPython" % len(badsc))
+            for m in badsc[:5]:
+                undecided.append("engine self-check mismatch: %s" % m)
     # ---------------------------------------------------------------- evidence
     from .npmodel import ASSUMED
     if obl_total:
